@@ -15,6 +15,7 @@ structure RunObs where
   started : List Nat
   ended : List (Nat × Int)
   times : List (Nat × Nat × Nat)     -- id, start, end (only for helpers that ended)
+  killed : List Nat := []            -- ids whose process ended by a signal (no exit code)
 
 def isFailure (fou : Bool) : Status → Bool
   | .error _ => true
@@ -82,8 +83,10 @@ permission, or (with `--fail-on-undefined`) an undefined command. Otherwise the 
 failure although none of the failures C06 lists occurred. -/
 def checkCause (fou : Bool) (plan : List Group) (o : RunObs) : Option String :=
   let st (t : Task) : Option Status := statusFor o.results t.id
-  if plan.any (fun g => g.any (fun t => st t == some (.error none)) &&
-      !g.any (fun t => match st t with | some s => isPrimaryFailure fou s | none => false)) then
+  -- a process that ended by a signal has no exit code either: it is a failure of its own
+  if plan.any (fun g => g.any (fun t => st t == some (.error none) && !o.killed.contains t.id) &&
+      !g.any (fun t => (match st t with | some s => isPrimaryFailure fou s | none => false) ||
+        (st t == some (.error none) && o.killed.contains t.id))) then
     some "a task was torn down (error without exit code) although nothing in its group failed"
   else none
 
